@@ -119,6 +119,8 @@ def matrix(argv):
     import concurrent.futures
     jobs = int(argv[argv.index("--jobs") + 1]) if "--jobs" in argv else 3
     only = argv[argv.index("--only") + 1] if "--only" in argv else None
+    targets_only = "--targets-only" in argv          # each change against the check expected to fire only
+    sample = "--off-target-sample" in argv           # plus every check for a fixed sample of changes
     root = os.path.join(VERIF, "seeded")
     names = sorted(n for n in os.listdir(root) if os.path.isdir(os.path.join(root, n)) and (not only or only in n))
     os.environ["VERIF_WORKERS"] = str(max(2, 16 // jobs))
@@ -132,7 +134,16 @@ def matrix(argv):
         return name, pid, r
 
     with concurrent.futures.ThreadPoolExecutor(max_workers=jobs) as ex:
-        futs = [ex.submit(one, n, p) for n in names for p in PROPS]
+        pairs = []
+        for i, n in enumerate(names):
+            meta = json.load(open(os.path.join(root, n, "meta.json")))
+            tgt = meta.get("detected_by", meta["property"])
+            for p in PROPS:
+                if not targets_only or p in (tgt, meta["property"]) or (sample and i % 4 == 0):
+                    if n in results and p in results[n] and "--resume" in argv:
+                        continue
+                    pairs.append((n, p))
+        futs = [ex.submit(one, n, p) for n, p in pairs]
         for f in concurrent.futures.as_completed(futs):
             name, pid, r = f.result()
             results.setdefault(name, {})[pid] = {"exit": r["exit"], "oracles": r["oracles"][:2], "tail": r["tail"][-1:]}
